@@ -45,7 +45,7 @@ def build(spec, wfin):
         kind = nd.get("kind", "F")
         if kind == "F":
             task = F(tag=nd.get("tag", nd["name"]), fail=bool(nd.get("fail")), gate=bool(nd.get("gate")),
-                     failtok=nd.get("failtok", ""), **kw)
+                     failtok=nd.get("failtok", ""), sleep=nd.get("sleep", 0.0), **kw)
         elif kind == "FT":
             task = FT(tag=nd.get("tag", nd["name"]), **kw)
         elif kind == "L":
